@@ -15,7 +15,7 @@ ASSUMPTIONS = ["A-VM", "A-U64",
                "A-ENV: the 19 theorems of Props/C15.v are relative to the interface laws L0-L7 of the LP farm / staking farm / pair; "
                "every law is evaluated on every real answer in this run AND proved on the callee model (L1-L3 farm, L3-L5 staking, L6 pair, "
                "L7 safe price); Props/C15_closed.v composes proxy and callee models so that no law is assumed (inputs left: the pair's "
-               "safe-price answer, the boosted payouts of the farm models, block/epoch)",
+               "safe-price answer, the boosted payouts of the farm models, block/epoch); law L7 (registered value = the documented time-weighted average) is evaluated on every registered value against an INDEPENDENT ledger of start-of-round reserves (Run/MetaTwapRun.check_twap, Props/C15_twap.v), not against the pair's own answer",
                "A-V0: stakeFarmTokens whose safe-price value is 0 with merged dual-yield tokens is not executed in the closed exploration "
                "(Model/StakingPos.v requires amt > 0 for the virtual stake; the real contract accepts it)",
                "A-NFT0: operations that would create a position / dual-yield token of quantity 0 (safe price of the position = 0) "
@@ -279,10 +279,16 @@ def explore(tier, seed, model_ok=True, focus=False):
                                              ops=[t[0] for t in trace]))
     # closed composition (callee answers computed by the callee models) and the on-behalf endpoints with a real hub
     from props import meta_closed_common as mcc
-    return mcc.merge(ex, mcc.explore_meta_closed("C15", tier, seed, model_ok, focus))
+    ex = mcc.merge(ex, mcc.explore_meta_closed("C15", tier, seed, model_ok, focus))
+    # independent safe-price reference: own ledger of start-of-round reserves + documented average (C13 oracle), law L7 checked in Coq
+    from props import c15_twap_common as tcc
+    return tcc.merge(ex, tcc.explore_twap("C15", tier, seed, model_ok, focus))
 
 
 def replay(data):
+    if data.get("replay", {}).get("system") == "meta_twap":
+        from props import c15_twap_common as tcc
+        return tcc.replay_twap(data)
     if data.get("replay", {}).get("system") == "meta_closed":
         from props import meta_closed_common as mcc
         return mcc.replay_meta_closed(data)
